@@ -288,19 +288,23 @@ func (sp *histSpec) explore(c *mc.Ctx, maxLen int) {
 				}
 				decl := append(append([]string{}, nd.declared...), op.Declares...)
 				k := histStateKey(rf, decl)
-				if seen[k] {
-					continue
-				}
-				seen[k] = true
-				states++
 				h := append(append([]histOp{}, nd.hist...), op)
-				// probe battery before the state may absorb later duplicates
+				// the probe battery runs after EVERY transition, also one that leads to a
+				// reference state seen before: two histories with equal reference states may
+				// leave the implementation in different states (sharing is exactly what the
+				// reference does not have), so the duplicate is absorbed only after its own
+				// history has been probed
 				if sp.Probes != nil {
 					for _, pr := range sp.Probes(decl, rf) {
 						visit("probe", h, []histOp{pr})
 						probes++
 					}
 				}
+				if seen[k] {
+					continue
+				}
+				seen[k] = true
+				states++
 				next = append(next, histNode{hist: h, declared: decl})
 				if c.WantSample() && c.Shard == 0 && states%997 == 5 {
 					var labels []string
